@@ -331,3 +331,8 @@ var subLayouts = vk.Register(&vk.Sub[Case]{Name: "layouts", Gen: gen, Check: che
 func TestSub_layouts(t *testing.T) { vk.RunRapid(t, subLayouts) }
 
 func TestReplay(t *testing.T) { vk.Replay(t) }
+
+// native coverage-guided fuzzing over the same generator and oracle (thorough tier)
+var subNativeFuzz = vk.Register(&vk.Sub[Case]{Name: "layouts_fuzz", Gen: gen, Check: check})
+
+func FuzzSub_layouts_fuzz(f *testing.F) { vk.RunFuzz(f, subNativeFuzz) }
